@@ -1191,3 +1191,44 @@ benign("c12-disable-guard-by-flag-and-content", ["C12"], [(F, '''            if 
                 # already disabled: do not wrap it a second time
                 return False''', '''            if self.__isdisabled(f["content"]) is True:
                 return False''')])
+
+# --------------------------------------------------------------------------- C11
+seeded("n1-markers-swapped-in-reader", ["C11"], "N1", [(F, '''                if comment.startswith(self.filter_name_pretext):
+                    name = comment.replace(self.filter_name_pretext, "")
+                if comment.startswith(self.filter_desc_pretext):
+                    description = comment.replace(self.filter_desc_pretext, "")''', '''                if comment.startswith(self.filter_name_pretext):
+                    name = comment.replace(self.filter_name_pretext, "")
+                if comment.startswith(self.filter_name_pretext):
+                    description = comment.replace(self.filter_desc_pretext, "")''')], "descriptions never reload; no test has one")
+seeded("n1-writer-space-after-marker", ["C11"], "N1", [(F, '''target.write("{}{}\\n".format(self.filter_name_pretext, f["name"]))''', '''target.write("{} {}\\n".format(self.filter_name_pretext, f["name"]))''')], "names gain a leading blank on every save/load cycle")
+seeded("n1-description-always-written", ["C11"], "N1", [(F, '''            if "description" in f and f["description"]:
+                target.write(''', '''            if "description" in f:
+                target.write(''')])
+seeded("n2-enabled-polarity", ["C11"], "N2", [(F, '''"enabled": not self.__isdisabled(f),''', '''"enabled": self.__isdisabled(f),''')])
+seeded("n2-recogniser-any-if", ["C11", "C12"], {"C11": "N2", "C12": "O5"}, [(F, '''        if not isinstance(fcontent["test"], commands.FalseCommand):
+            return False
+        return True''', '''        return True''')], "every loaded `if` filter counts as disabled")
+seeded("n3-comments-for-nested-too", ["C11", "C03"], {"C11": "N3", "C03": "P11"}, [(P, '''        if not self.__curcommand.parent:
+            # collect current amount of hash comments for later
+            # parsing into names and desciptions
+            self.__curcommand.hash_comments = self.hash_comments
+            self.hash_comments = []
+            self.result += [self.__curcommand]''', '''        self.__curcommand.hash_comments = self.hash_comments
+        self.hash_comments = []
+        if not self.__curcommand.parent:
+            self.result += [self.__curcommand]''')], "the first nested command swallows the filter's name comment")
+seeded("n3-collector-not-reset-between-parses", ["C11", "C13"], {"C11": "N3", "C13": "H2"}, [(P, "        self.hash_comments = []\n\n        self.__cstate = None", "        self.__cstate = None")])
+seeded("n4-requires-list-only", ["C11"], "N4", [(F, '''                if type(f.arguments["capabilities"]) == list:
+                    [self.require(c) for c in f.arguments["capabilities"]]
+                else:
+                    self.require(f.arguments["capabilities"])
+                continue''', '''                [self.require(c) for c in f.arguments["capabilities"]]
+                continue''')], "`require \"fileinto\";` is loaded as the extensions f, i, l, e ...")
+seeded("n4-filters-prepended", ["C11"], "N4", [(F, '''            self.filters += [
+                {
+                    "name": name,
+                    "description": description,''', '''            self.filters[:0] = [
+                {
+                    "name": name,
+                    "description": description,''')], "order reversed on load")
+benign("c11-writer-percent-format", ["C11"], [(F, '''target.write("{}{}\\n".format(self.filter_name_pretext, f["name"]))''', '''target.write("%s%s\\n" % (self.filter_name_pretext, f["name"]))''')])
